@@ -375,7 +375,16 @@ fn directed_prelude(ty: &str, rng: &mut Rng) -> Option<(u64, Vec<Vec<u64>>)> {
     let m1 = (m0 + 1 + rng.below(2)) % 3;
     let nodup = 1; // first DELIVER arg: 0 = re-deliver a known op, otherwise an unknown one
     match ty {
-        "orswot" => Some(match rng.below(3) {
+        "orswot" => Some(match rng.below(4) {
+            // a pending remove must travel with a merged state to a replica that already has the add
+            3 => (1, vec![
+                vec![K_EDIT, ra, m0, 0],                 // A: add m0                   (op 0)
+                vec![K_DELIVER, rb, nodup, 0],           // B learns it
+                vec![K_EDIT, rb, m0, 4],                 // B: rm m0                     (op 1)
+                vec![K_DELIVER, rc, nodup, 1],           // C gets the remove before the add: pending
+                vec![K_MERGE, ra, rc],                   // A (has the add, not the remove) <- C
+                vec![K_MERGE, rc, ra],
+            ]),
             // two removes sharing one context overtake the add they cover
             0 => (1, vec![
                 vec![K_EDIT, ra, m0, 3, m1, m1, 1],     // add_all [m0, m1]           (op 0)
@@ -407,6 +416,39 @@ fn directed_prelude(ty: &str, rng: &mut Rng) -> Option<(u64, Vec<Vec<u64>>)> {
                 vec![K_DELIVER, 3, nodup, 2],            // D gets op 2 only (per-actor: needs op 1 first, else no-op)
                 vec![K_MERGE, rc, 3],
                 vec![K_MERGE, rc, ra],
+            ]),
+        }),
+        "merkle" => Some((2, vec![
+            // a node arrives before its child at one replica (orphan); the replica holding the
+            // child merges that state
+            vec![K_EDIT, ra, 0, 0],                      // A: root a                    (op 0)
+            vec![K_EDIT, ra, 1, 2],                      // A: c on top of the heads     (op 1)
+            vec![K_DELIVER, rc, nodup, 1],               // C gets c first: orphan
+            vec![K_DELIVER, rb, nodup, 0],               // B gets a
+            vec![K_MERGE, rb, rc],                       // B <- C
+            vec![K_MERGE, rc, rb],
+        ])),
+        "mapor" | "mapmm" | "mapmv" => Some(match rng.below(2) {
+            // a key remove that only partly empties an entry, then a merge with a stale replica
+            0 => (1, vec![
+                vec![K_EDIT, ra, 0, 0, 1, m0, 0],        // A: update k0 (nested add/write)   (op 0)
+                vec![K_EDIT, rb, 0, 0, 1, m1, 0],        // B: update k0 concurrently          (op 1)
+                vec![K_DELIVER, rc, nodup, 0],           // C learns A's update only
+                vec![K_EDIT, rc, 0, 5],                  // C: rm k0 with the get() context    (op 2)
+                vec![K_DELIVER, ra, nodup, 0],           // A learns B's update: stale {both}
+                vec![K_DELIVER, rb, nodup, 0],           // B learns A's update
+                vec![K_DELIVER, rb, nodup, 0],           // B learns the remove
+                vec![K_MERGE, rb, ra],                   // up-to-date <- stale
+                vec![K_MERGE, ra, rb],
+            ]),
+            // one actor updates a key twice, the remover saw only the first update
+            _ => (1, vec![
+                vec![K_EDIT, ra, 0, 0, 1, m0, 0],        // A: update k0                       (op 0)
+                vec![K_DELIVER, rc, nodup, 0],
+                vec![K_EDIT, ra, 0, 0, 1, m1, 0],        // A: update k0 again                 (op 1)
+                vec![K_EDIT, rc, 0, 5],                  // C: rm k0 (saw only op 0)           (op 2)
+                vec![K_DELIVER, ra, nodup, 0],           // A gets the remove
+                vec![K_DELIVER, rc, nodup, 0],           // C gets the second update
             ]),
         }),
         "mvreg" => Some(match rng.below(2) {
